@@ -10,6 +10,19 @@ KEY_KINDS = ["float", "int", "bool", "str", "strlong", "date", "datetime", "time
 # unsigned keys: 0 is the smallest value and has no negative (sorted descending it must still come last)
 UINT_KINDS = ["uint8", "uint64"]
 NAMES = ["a", "b", "c", "d", "e"]
+# column names a file or another library may bring: not in Unicode normal form (superscripts, the micro sign, ligatures,
+# compatibility letters, decomposed accents), next to their normalised look-alikes; with spaces; not identifiers
+ODD_NAMES = ["area_m\u00b2", "area_m2", "dose_\u00b5g", "dose_\u03bcg", "temp_\u2103", "\ufb01eld", "e\u0301te\u0301", "\u00e9t\u00e9", "\uff57ide", "a b", "2nd", "\u212b"]
+ODD_NAMES_LATIN1 = ["area_m\u00b2", "area_m2", "dose_\u00b5g", "\u00e9t\u00e9", "a b", "2nd"]
+
+
+def odd_names(rng, spec, latin1=False, p=0.3):
+    """with probability p, give the columns of spec names from ODD_NAMES (distinct), in place"""
+    if spec["cols"] and rng.random() < p:
+        pool = ODD_NAMES_LATIN1 if latin1 else ODD_NAMES
+        for c, nm in zip(spec["cols"], rng.sample(pool, min(len(pool), len(spec["cols"])))):
+            c["name"] = nm
+    return spec
 
 
 def gen_frame(rng, tier, ncols=None, nrows=None, kinds=None):
